@@ -184,6 +184,22 @@ pub fn c02(opts: &Opts) -> Report {
                     if !parse_agree(ctx, "C02", &text).0 { return; }
                 } else { ctx.rep.bump("not_in_printable_fragment"); }
             }
+            // the meaning depends on the text only: two blocks in one template that differ in the letter case of one
+            // argument / in one replace flag are two different pipelines, and each means what it says
+            if i % 4 == 3 && !dbg {
+                if let Some(ops2) = super::templates::tweak_case_or_flag(&ops) {
+                    let text = format!("{} {}", print_block(&ops), print_block(&ops2));
+                    let x = gens::input_for(&mut ctx.rng, &ops);
+                    let whole = real::parse_format(&text, &x);
+                    let parts = match (real::parse_format(&print_block(&ops), &x), real::parse_format(&print_block(&ops2), &x)) { (Out::Ok(a), Out::Ok(b)) => Out::Ok(format!("{a} {b}")), _ => Out::Err };
+                    ctx.rep.eval(); ctx.rep.bump("near_duplicate_blocks");
+                    if whole != parts {
+                        viol(ctx, "property", format!("C02: format({text:?}, {x:?}) = {} but its two blocks, each formatted alone, give {}", whole.show(), parts.show()),
+                             vec![("template", text.clone()), ("input", x.clone()), ("observed", whole.show()), ("expected", parts.show()), ("theorem", "C02_printed_text_means_its_operations".into())]);
+                        return;
+                    }
+                }
+            }
             // the same block embedded in a mixed template: after literal text, and directly after a ${...} group
             if i % 4 == 1 && !dbg {
                 let b = print_block(&ops);
@@ -218,7 +234,9 @@ pub fn c11(opts: &Opts) -> Report {
         opts.cases(5_000, 300_000), &|ctx, i| {
             let s: String = match ctx.rng.below(5) {
                 // texts whose escaped spelling puts an escaped special right before something a look-ahead of the grammar tests
-                4 => { let a = *ctx.rng.pick(&[":1", ":..", ":-2", "|upper", "|sort", "}|x", "\\}", "a:0b", "é:42", "::3", "|", ":", "\\:1", "{:..}"]); if ctx.rng.chance(1, 2) { a.to_string() } else { format!("{}{}", gens::word(&mut ctx.rng), a) } }
+                4 => { let a = *ctx.rng.pick(&[":1", ":..", ":-2", "|upper", "|sort", "}|x", "\\}", "a:0b", "é:42", "::3", "|", ":", "\\:1", "{:..}",
+                        // the two-character TEXTS backslash + n / t / r / : / | (not the control characters)
+                        "\\n", "\\t", "\\r", "\\:", "\\|", "\\\\"]); if ctx.rng.chance(1, 2) { a.to_string() } else { format!("{}{}", gens::word(&mut ctx.rng), a) } }
                 0 => gens::unicode_text(&mut ctx.rng, 8),
                 1 => { let n = 1 + ctx.rng.below(5); (0..n).map(|_| *ctx.rng.pick(&['\\', '{', '}', ':', '|', '\n', '\t', '\r', 'n', 't', 'é', '😀', '/', ' '])).collect() }
                 _ => gens::simple_arg(&mut ctx.rng),
@@ -295,6 +313,19 @@ pub fn c11(opts: &Opts) -> Report {
                     }
                     ctx.rep.bump("trim_user_level_checks");
                 }
+            }
+            // split: the list a split leaves at the end of a pipeline is rendered with exactly the separator written
+            if which == 5 && !in_map && !s.is_empty() {
+                let t2 = if mixed { format!("<{{split:{e}:..|slice:..}}>") } else { format!("{{split:{e}:..|slice:..}}") };
+                let xin = format!("a{s}b{s}c");
+                let want = if mixed { format!("<{xin}>") } else { xin.clone() };
+                let got = real::parse_format(&t2, &xin);
+                if got != Out::Ok(want.clone()) {
+                    viol(ctx, "property", format!("C11: format({t2:?}, {xin:?}) = {} but the separator {s:?} is the text written: expected {want:?}", got.show()),
+                         vec![("template", t2), ("input", xin), ("observed", got.show()), ("expected", format!("{want:?}")), ("theorem", "C11_escape_roundtrip".into())]);
+                    return;
+                }
+                ctx.rep.bump("split_render_checks");
             }
             if i < 3 { ctx.rep.sample(format!("{text} with argument {s:?}")); }
         })
@@ -399,7 +430,7 @@ pub fn c12(opts: &Opts) -> Report {
                     let ops = wf_pipeline(&mut ctx.rng, 3); let b = print_block(&ops);
                     let _ = real::parse(&b);
                     ctx.rep.bump("doubled_braces_after_valid_parse");
-                    match ctx.rng.below(3) { 0 => format!("x{{{b}}}"), 1 => format!("{{{b}}} done"), _ => format!("id={{{b}}};") }
+                    match ctx.rng.below(5) { 0 => format!("x{{{b}}}"), 1 => format!("{{{b}}} done"), 2 => format!("id={{{b}}};"), 3 => format!("{{{b}}}"), _ => format!("{{{{{b}}}}}") }
                 }
                 else { let ops = wf_pipeline(&mut ctx.rng, 4); let base = if ctx.rng.chance(1, 3) { format!("pre {} post", print_block(&ops)) } else { print_block(&ops) }; corrupt(&mut ctx.rng, &base) };
             ctx.rep.eval();
@@ -456,10 +487,17 @@ pub fn c03(opts: &Opts) -> Report {
                 }
                 ctx.rep.bump(if r.starts_with("ok") { "parse_ok" } else { "parse_err" });
             } else {
-                let ops = wf_pipeline(&mut ctx.rng, 5);
+                let mut ops = wf_pipeline(&mut ctx.rng, 5);
+                if i % 25 == 7 {
+                    // a capture group that exists in the pattern but does not take part in the match
+                    let (pat, g) = *ctx.rng.pick(&[("(a)?b", 1u128), ("(\\d+)-|([a-z]+)", 1), ("(\\d+)-|([a-z]+)", 2), ("(x)?(o)", 1), ("(a)|(b)", 2), ("(a)(b)?", 2)]);
+                    let re = Op::RegexExtract(pat.to_string(), Some(g));
+                    ops = if ctx.rng.chance(1, 2) { vec![re] } else { vec![Op::Split(" ".into(), Range::Range(None, None, false)), Op::Map(vec![re])] };
+                    ctx.rep.bump("optional_group_extractions");
+                }
                 let lit1 = if ctx.rng.chance(1, 2) { straddling_input(&mut ctx.rng) } else { " ".repeat(ctx.rng.below(4)) };
                 let text = match ctx.rng.below(3) { 0 => print_block(&ops), 1 => format!("{lit1}{}", print_block(&ops)), _ => format!("{}{lit1}{}", print_block(&ops), print_block(&[Op::Upper])) };
-                let x = if ctx.rng.chance(2, 3) { straddling_input(&mut ctx.rng) } else { gens::input_for(&mut ctx.rng, &ops) };
+                let x = if i % 25 == 7 { ctx.rng.pick(&["b", "abc", "o b", "a", "12- abc b"]).to_string() } else if ctx.rng.chance(2, 3) { straddling_input(&mut ctx.rng) } else { gens::input_for(&mut ctx.rng, &ops) };
                 let dbg = ctx.rng.chance(2, 3);
                 ctx.rep.nontrivial(&(text.clone(), x.clone(), dbg));
                 ctx.rep.bump(if dbg { "format_debug_on" } else { "format_debug_off" });
